@@ -1,7 +1,7 @@
 /-
   FREQ=YEARLY filler model (Echse.Model.RrYly): properties C09 / C16 of one call `fillYly r proto nti`.
 -/
-import Echse.Lemmas.RrCandOk
+import Echse.Lemmas.RrCandOk5
 namespace Echse.Lemmas.RrYlyOk
 open Echse.Rrule Echse.Instant Echse.Spec.RrOk
 open Echse.Lemmas.RrCandOk
@@ -30,7 +30,9 @@ theorem fillYly_eq (r : Rule) (proto : Inst) (n : Nat) : fillYly r proto n =
     if r.scale ≠ 0 ∨ proto.y ≥ 4096 then none else
     match capNti r n with
     | none => some []
-    | some nti => some (ylyLoop (ylyCtxOf r proto nti) (64 * (nti + 1) + 2101) (ylyStart r proto) 64 {}).out.reverse := rfl
+    | some nti =>
+      if proto.m > 12 ∨ proto.d > 31 then some [] else
+      some (ylyLoop (ylyCtxOf r proto nti) (64 * (nti + 1) + 2101) (ylyStart r proto) 64 {}).out.reverse := rfl
 
 /-- induction over the year loop: an invariant kept by every period holds at the end -/
 theorem ylyLoop_ind (c : YlyCtx) (J : Nat → FillSt → Prop)
@@ -81,8 +83,10 @@ theorem fillYly_some (r : Rule) (p : Inst) (n : Nat) (l : List Inst) (h : fillYl
   split at h
   · injection h with h; exact Or.inl h.symm
   · rename_i nti hc
-    injection h with h
-    exact Or.inr ⟨nti, hc, h.symm⟩
+    split at h
+    · injection h with h; exact Or.inl h.symm
+    · injection h with h
+      exact Or.inr ⟨nti, hc, h.symm⟩
 
 /-- C09 / C16: at most `nti` and at most COUNT instants are written -/
 theorem fillYly_len (r : Rule) (p : Inst) (n : Nat) (l : List Inst) (hr : WfRule r) (h : fillYly r p n = some l) :
@@ -159,7 +163,9 @@ theorem fillYly_total (r : Rule) (p : Inst) (n : Nat) (hr : WfRule r) (hp : WfIn
   have h1 := hr.scale
   have h2 := hp.year
   rw [if_neg (by omega)]
-  split <;> rfl
+  split
+  · rfl
+  · split <;> rfl
 
 /-- `fillYly_total` says little, as the model returns the cache also when its fuel is used up; this is the content:
 the fuel `fillYly` gives the loop is enough — any larger amount leads to the same run -/
@@ -168,5 +174,218 @@ theorem fillYly_fuel_enough (r : Rule) (p : Inst) (nti F : Nat) (hr : WfRule r)
     ylyLoop (ylyCtxOf r p nti) F (ylyStart r p) 64 {} =
       ylyLoop (ylyCtxOf r p nti) (64 * (nti + 1) + 2101) (ylyStart r p) 64 {} :=
   ylyLoop_fuel _ hr.inter _ _ _ _ _ (by omega) (by omega)
+
+/-- the first part of `ylyCand`: note 2 on page 44, RFC 5545 -/
+def ylyCand0 (c : YlyCtx) (y : Nat) : List Nat :=
+  let r := c.r
+  let nm := c.ms.length
+  let nd := c.ds.length
+  let cand : List Nat := []
+    if c.wdMask ≠ 0 ∧ (nd ≠ 0 ∨ !r.doy.isEmpty) then cand
+    else if c.wdMask ≠ 0 ∧ !r.wk.isEmpty then fillYlyYwd cand y r.wk r.dow
+    else if !c.pdow.isEmpty then fillYlyYwd cand y r.wk c.pdow
+    else if c.wdMask ≠ 0 ∧ nm ≠ 0 then
+      let cand := if c.wdMask % 2 = 1 then fillYlyYmcw cand y r.dow c.ms else cand
+      fillYlyMdAll cand y c.ms c.wdMask
+    else if c.wdMask ≠ 0 then
+      let cand := if c.wdMask % 2 = 1 then fillYlyYcw cand y r.dow else cand
+      fillYlyYdAll cand y c.wdMask
+    else cand
+
+theorem ylyCand_eq (c : YlyCtx) (y : Nat) : ylyCand c y =
+    (let cand := fillYlyYd (ylyCand0 c y) y c.r.doy c.wdMask
+     if !c.r.easter.isEmpty then fillYlyEastr cand y c.r.easter c.r.mon c.r.dom c.wdMask
+     else if c.ms.length = 0 ∧ c.ds.length = 0 then cand
+     else if c.ms.length = 0 then fillYlyYmdAllM cand y c.ds c.wdMask
+     else if c.ds.length = 0 then fillYlyYmdAllD cand y c.ms c.wdMask
+     else fillYlyYmd cand y c.ms c.ds c.wdMask) := rfl
+
+theorem ylyCand0_ok (c : YlyCtx) (y : Nat) (hms : ∀ m ∈ c.ms, 1 ≤ m ∧ m ≤ 12)
+    (hdow : ∀ t ∈ c.r.dow, -431 ≤ t ∧ t ≤ 431 ∧ t % 8 ≠ 0) : AllVC y (ylyCand0 c y) := by
+  unfold ylyCand0
+  dsimp only
+  split
+  · exact AllVC.nil y
+  split
+  · exact fillYlyYwd_ok _ _ _ _ (AllVC.nil y)
+  split
+  · exact fillYlyYwd_ok _ _ _ _ (AllVC.nil y)
+  split
+  · refine fillYlyMdAll_ok _ _ _ _ ?_ hms
+    split
+    · exact fillYlyYmcw_ok _ _ _ _ (AllVC.nil y) hms hdow
+    · exact AllVC.nil y
+  split
+  · refine fillYlyYdAll_ok _ _ _ ?_
+    split
+    · exact fillYlyYcw_ok _ _ _ (AllVC.nil y) hdow
+    · exact AllVC.nil y
+  · exact AllVC.nil y
+
+/-- every candidate of a year is a real date of that year -/
+theorem ylyCand_ok (c : YlyCtx) (y : Nat) (hms : ∀ m ∈ c.ms, 1 ≤ m ∧ m ≤ 12) (hds : ∀ d ∈ c.ds, -31 ≤ d ∧ d ≤ 31)
+    (hdow : ∀ t ∈ c.r.dow, -431 ≤ t ∧ t ≤ 431 ∧ t % 8 ≠ 0) (hdoy : ∀ d ∈ c.r.doy, -366 ≤ d) :
+    AllVC y (ylyCand c y) := by
+  rw [ylyCand_eq]
+  have h1 := fillYlyYd_ok _ y c.r.doy c.wdMask (ylyCand0_ok c y hms hdow) hdoy
+  dsimp only
+  split
+  · exact fillYlyEastr_ok _ _ _ _ _ _ h1
+  split
+  · exact h1
+  split
+  · exact fillYlyYmdAllM_ok _ _ _ _ h1 hds
+  split
+  · exact fillYlyYmdAllD_ok _ _ _ _ h1 hms
+  · exact fillYlyYmd_ok _ _ _ _ _ h1 hms hds
+
+theorem mem_take {α : Type} (l : List α) (n : Nat) (x : α) (h : x ∈ l.take n) : x ∈ l :=
+  (List.take_sublist n l).subset h
+
+theorem ylyCtxOf_ms (r : Rule) (p : Inst) (nti : Nat) (hr : WfRule r) (hp : WfInst p) :
+    ∀ m ∈ (ylyCtxOf r p nti).ms, 1 ≤ m ∧ m ≤ 12 := by
+  intro m hm
+  unfold ylyCtxOf at hm
+  dsimp only at hm
+  split at hm
+  · simp only [List.mem_singleton] at hm; rw [hm]; exact hp.month
+  · exact hr.mon.2 m (mem_take _ _ _ hm)
+
+theorem ylyCtxOf_ds (r : Rule) (p : Inst) (nti : Nat) (hr : WfRule r) (hp : WfInst p) :
+    ∀ d ∈ (ylyCtxOf r p nti).ds, -31 ≤ d ∧ d ≤ 31 := by
+  intro d hd
+  unfold ylyCtxOf at hd
+  dsimp only at hd
+  split at hd
+  · simp only [List.mem_singleton] at hd
+    have := hp.day; have := getNdom_le p.y p.m
+    omega
+  · have := hr.dom d (mem_take _ _ _ hd); omega
+/-- C16 (sane instants), as far as it holds: every instant written is a real date between 1601 and 2100 with a
+proper time of day — provided `shift()` keeps dates real for this rule's SHIFT (`ShiftKeepsDates`, which holds
+without a SHIFT) and an all-day seed gets no minutes or seconds (`AllDayOk`) -/
+theorem fillYly_wf (r : Rule) (p : Inst) (n : Nat) (l : List Inst) (hr : WfRule r) (hp : WfInst p)
+    (hs : ShiftKeepsDates r.shift) (had : AllDayOk r p) (h : fillYly r p n = some l) : ∀ x ∈ l, WfInst x := by
+  rcases fillYly_some r p n l h with rfl | ⟨nti, _, rfl⟩
+  · exact fun x hx => (nomatch hx)
+  · have hc : ∀ y, AllVC y (ylyCand (ylyCtxOf r p nti) y) := fun y =>
+      ylyCand_ok _ y (ylyCtxOf_ms r p nti hr hp) (ylyCtxOf_ds r p nti hr hp)
+        (fun t ht => by have := hr.dow t ht; exact ⟨this.2.1, this.2.2.1, this.2.2.2⟩)
+        (fun d hd => (hr.doy d hd).2.1)
+    obtain ⟨_, hJ⟩ := ylyLoop_ind (ylyCtxOf r p nti) (fun _ st => ∀ x ∈ st.out, WfInst x)
+      (fun y st hy hJ => by
+        have he := finishPeriod_emits (ylyCtxOf r p nti).k y (ylyCand (ylyCtxOf r p nti) y) st
+        refine he.inv (fun x hx _ h2 => ?_) hJ
+        exact finE_wf _ y _ hy (hc y) hs (times_ok r p hr hp had) hp.year x hx h2)
+      (64 * (nti + 1) + 2101) (ylyStart r p) 64 {} (fun x hx => nomatch hx)
+    exact fun x hx => hJ x (List.mem_reverse.mp hx)
+
+/-- C16 (ordered): what is written is strictly ascending.  Under a SHIFT because the emission skips whatever is not
+later than the last instant written; without one because candidate days, times of day and years all ascend. -/
+theorem fillYly_asc (r : Rule) (p : Inst) (n : Nat) (l : List Inst) (hr : WfRule r) (hp : WfInst p)
+    (h : fillYly r p n = some l) : l.Pairwise (fun a b => ltP a b = true) := by
+  rcases fillYly_some r p n l h with rfl | ⟨nti, _, rfl⟩
+  · exact List.Pairwise.nil
+  refine List.pairwise_reverse.mpr ?_
+  change Desc _
+  by_cases hs : r.shift = 0
+  · -- no SHIFT
+    have hc : ∀ y, AllVC y (ylyCand (ylyCtxOf r p nti) y) := fun y =>
+      ylyCand_ok _ y (ylyCtxOf_ms r p nti hr hp) (ylyCtxOf_ds r p nti hr hp)
+        (fun t ht => by have := hr.dow t ht; exact ⟨this.2.1, this.2.2.1, this.2.2.2⟩)
+        (fun d hd => (hr.doy d hd).2.1)
+    obtain ⟨_, hJ⟩ := ylyLoop_ind (ylyCtxOf r p nti)
+      (fun y st => Desc st.out ∧ ∀ a ∈ st.out, a.y % 65536 < y)
+      (fun y st hy hJ => by
+        unfold maxYear at hy
+        have hu : u32 = 4294967296 := rfl
+        have hi := hr.inter
+        have hy' : (y + (ylyCtxOf r p nti).r.inter) % u32 = y + r.inter := by
+          rw [ylyCtxOf_r, hu]; omega
+        rw [hy']
+        have he := finishPeriod_emits (ylyCtxOf r p nti).k y (ylyCand (ylyCtxOf r p nti) y) st
+        have hE : ∀ x ∈ finE (ylyCtxOf r p nti).k y (ylyCand (ylyCtxOf r p nti) y), x.y % 65536 = y := by
+          intro x hx
+          rw [finE_noshift _ _ _ hs] at hx
+          obtain ⟨yd, _, t, _, rfl⟩ := mem_setE _ _ _ x hx
+          show y % 65536 % 65536 = y
+          omega
+        refine ⟨he.desc_of_sorted (finE_sorted r p nti y _ hr hp hs (by omega) (hc y)) ?_ hJ.1, ?_⟩
+        · intro a ha x hx
+          exact ltP_of_year_lt a x (by rw [hE x hx]; exact hJ.2 a ha)
+        · refine he.inv (fun x hx _ _ => ?_) (fun a ha => ?_)
+          · rw [hE x hx]; omega
+          · have := hJ.2 a ha; omega)
+      (64 * (nti + 1) + 2101) (ylyStart r p) 64 {} ⟨List.Pairwise.nil, fun a ha => nomatch ha⟩
+    exact hJ.1
+  · -- SHIFT: ordered by construction
+    obtain ⟨_, hJ⟩ := ylyLoop_ind (ylyCtxOf r p nti) (fun _ st => Base (ylyCtxOf r p nti).k st ∧ Desc st.out)
+      (fun y st _ hJ => by
+        have he := finishPeriod_emits (ylyCtxOf r p nti).k y (ylyCand (ylyCtxOf r p nti) y) st
+        exact ⟨he.base hJ.1, he.desc hs hJ.1 hJ.2⟩)
+      (64 * (nti + 1) + 2101) (ylyStart r p) 64 {} ⟨Base.init _, List.Pairwise.nil⟩
+    exact hJ.2
+/-- C16 / C09 for one call of the yearly filler, under the two provisos of `fillYly_wf`:
+* `hs : ShiftKeepsDates r.shift` — `shift()` maps real dates of a year ≤ 2099 to real dates of the year their set is
+  emitted under (true for SHIFT absent, `shiftKeepsDates_zero`; false for large shifts, e.g. SHIFT=-672);
+* `had : AllDayOk r p` — an all-day seed without BYHOUR gets no non-zero BYMINUTE / BYSECOND.
+Both are needed for `wf` only; see `fillYly_ok_counterexample`. -/
+theorem fillYly_ok_partial (r : Rule) (p : Inst) (n : Nat) (l : List Inst) (hr : WfRule r) (hp : WfInst p) (_hn : n ≤ 64)
+    (hs : ShiftKeepsDates r.shift) (had : AllDayOk r p) (h : fillYly r p n = some l) : FillOk r p n l :=
+  { len_nti := (fillYly_len r p n l hr h).1
+    len_count := (fillYly_len r p n l hr h).2
+    wf := fillYly_wf r p n l hr hp hs had h
+    ge_proto := (fillYly_bounds r p n l h).1
+    le_until := (fillYly_bounds r p n l h).2
+    ascending := fillYly_asc r p n l hr hp h }
+
+theorem AllDayOk.of_timed (r : Rule) (p : Inst) (h : p.H ≠ allDay) : AllDayOk r p := fun h' => absurd h' h
+theorem AllDayOk.of_plain (r : Rule) (p : Inst) (hM : r.M = []) (hS : r.S = []) : AllDayOk r p :=
+  fun _ _ => ⟨fun m hm => (by rw [hM] at hm; cases hm), fun s hs' => (by rw [hS] at hs'; cases hs')⟩
+
+/-- the full statement for rules without SHIFT whose seed has a time of day (or that have no BYMINUTE / BYSECOND) -/
+theorem fillYly_ok_noshift (r : Rule) (p : Inst) (n : Nat) (l : List Inst) (hr : WfRule r) (hp : WfInst p) (hn : n ≤ 64)
+    (hs : r.shift = 0) (had : AllDayOk r p) (h : fillYly r p n = some l) : FillOk r p n l :=
+  fillYly_ok_partial r p n l hr hp hn (hs ▸ shiftKeepsDates_zero) had h
+
+/-- `fillYly_ok` as first stated (without the provisos) is false: FREQ=YEARLY;BYMINUTE=30 on an all-day seed
+yields instants with hour 255 (all-day) and minute 30 -/
+theorem fillYly_ok_counterexample :
+    ¬ ∀ (r : Rule) (p : Inst) (n : Nat) (l : List Inst), WfRule r → WfInst p → n ≤ 64 → fillYly r p n = some l →
+      FillOk r p n l := by
+  intro hall
+  have hr : WfRule { freq := 1, M := [30] } :=
+    { scale := rfl, inter := by decide, count := by decide, hours := ⟨List.Pairwise.nil, by decide⟩, mins := ⟨List.pairwise_singleton _ _, by decide⟩,
+      secs := ⟨List.Pairwise.nil, by decide⟩, mon := ⟨List.Pairwise.nil, by decide⟩, dom := by decide, doy := by decide, wk := by decide, dow := by decide, pos := by decide,
+      easter := by decide, shift := by decide }
+  have hp : WfInst { y := 2000, m := 1, d := 1, H := 255, M := 0, S := 0, ms := 0 } :=
+    { year := by decide, month := by decide, day := by decide, time := by decide, ms := by decide }
+  have h := hall _ _ 1 [{ y := 2000, m := 1, d := 1, H := 255, M := 30, S := 0, ms := 0 }] hr hp (by decide) (by decide +kernel)
+  have := (h.wf _ List.mem_cons_self).time
+  revert this
+  decide
+
+/-- `ShiftKeepsDates` does fail for shifts that reach beyond the neighbouring year: SHIFT=-672 takes 2022-01-01 to
+2020-02-29, which is filed under "previous year" and so stands for 2021-02-29 -/
+theorem shiftKeepsDates_fails : ¬ ShiftKeepsDates (-672 * 65536) := by
+  intro h
+  have h1 : AllVC 2022 [1] := ⟨by unfold VC; decide, List.pairwise_singleton _ _⟩
+  have h2 := (h 2022 [1] (by decide) h1).2.1 61 (by decide +kernel)
+  revert h2
+  unfold VC
+  decide
+
+/-- … and the fillers then write that date: FREQ=YEARLY;BYMONTH=1;BYMONTHDAY=1;SHIFT=-672 from 2021-01-01 -/
+theorem fillYly_shift_counterexample :
+    fillYly { freq := 1, shift := -672 * 65536, mon := [1], dom := [1] }
+      { y := 2021, m := 1, d := 1, H := 255, M := 0, S := 0, ms := 0 } 1 =
+    some [{ y := 2021, m := 2, d := 29, H := 255, M := 0, S := 0, ms := 0 }] := by decide +kernel
+
+/-- … or a year out of range: INTERVAL=1601 with a forward day part makes the loop start in year 0, a backward
+business-day part then reaches "the year before" -/
+theorem fillYly_shift_counterexample2 :
+    fillYly { freq := 1, inter := 1601, shift := 65557, mon := [1], dom := [1] }
+      { y := 1601, m := 1, d := 1, H := 255, M := 0, S := 0, ms := 0 } 1 =
+    some [{ y := 65535, m := 12, d := 26, H := 255, M := 0, S := 0, ms := 0 }] := by decide +kernel
 
 end Echse.Lemmas.RrYlyOk
